@@ -109,9 +109,17 @@ type replica struct {
 	dir           string
 	app           *evm.EVMApp
 	core          *fakeCore
-	lifetimeStart int // height after which the current process lifetime began
-	execInLife    int // blocks executed in the current lifetime
+	lifetimeStart int  // height after which the current process lifetime began
+	execInLife    int  // blocks executed in the current lifetime
+	hung          bool // a block never came back: the application object is abandoned
 }
+
+// errHang: OnExecute / OnCommit of a block did not return. A block normally takes milliseconds;
+// the replica is given two periods of stepPatience, and a replica that is merely slow returns in
+// the second one at the latest.
+var errHang = errors.New("the call never returned")
+
+const stepPatience = 90 * time.Second
 
 func (r *replica) open() error {
 	conf := viper.New()
@@ -131,10 +139,10 @@ func (r *replica) open() error {
 }
 
 func (r *replica) close() {
-	if r.app != nil {
+	if r.app != nil && !r.hung {
 		r.app.Stop()
-		r.app = nil
 	}
+	r.app = nil
 }
 
 type blockObs struct {
@@ -146,6 +154,27 @@ type blockObs struct {
 }
 
 func (r *replica) step(p blockParam) (blockObs, error) {
+	type out struct {
+		o   blockObs
+		err error
+	}
+	ch := make(chan out, 1)
+	go func() {
+		o, err := r.stepBlocking(p)
+		ch <- out{o, err}
+	}()
+	for i := 0; i < 2; i++ {
+		select {
+		case res := <-ch:
+			return res.o, res.err
+		case <-time.After(stepPatience):
+		}
+	}
+	r.hung = true
+	return blockObs{}, fmt.Errorf("block %d on replica %s: %w (waited %v)", p.height, r.name, errHang, 2*stepPatience)
+}
+
+func (r *replica) stepBlocking(p blockParam) (blockObs, error) {
 	var o blockObs
 	blk := mkBlock(p)
 	r.core.upto = int(p.height)
@@ -497,6 +526,10 @@ func runCase(c Case, x reporter) {
 			params[i] = p
 			o, err := A.step(p)
 			if err != nil {
+				if errors.Is(err, errHang) {
+					x.Fail("replica-hangs-in-block-execution", "replica A (%d signature workers): %v", c.WorkersA, err)
+					return
+				}
 				if x.Fail("execute-or-commit-fails", "replica A: %v", err) {
 					return
 				}
@@ -664,6 +697,10 @@ func runCase(c Case, x reporter) {
 		for i := 0; i < n; i++ {
 			o, err := B.step(params[i])
 			if err != nil {
+				if errors.Is(err, errHang) {
+					x.Fail("replica-hangs-in-block-execution", "replica B (%d signature workers) hangs where replica A (%d workers) executed the same block: %v", c.B.Workers, c.WorkersA, err)
+					return false
+				}
 				x.Fail("execute-or-commit-fails:"+hctx{restarted: restarted}.String(), "replica B: %v", err)
 				return false
 			}
@@ -708,6 +745,10 @@ func runCase(c Case, x reporter) {
 		for i := 0; i < n; i++ {
 			o, err := C.step(params[i])
 			if err != nil {
+				if errors.Is(err, errHang) {
+					x.Fail("replica-hangs-in-block-execution", "replica C (%d signature workers) hangs where replica A (%d workers) executed the same block: %v", c.WorkersC, c.WorkersA, err)
+					return
+				}
 				x.Fail("execute-or-commit-fails:catch-up", "replica C: %v", err)
 				return
 			}
